@@ -66,7 +66,7 @@ DYADIC_BETAS = [0.0, 0.125, 0.25, 0.375, 0.5, 0.625, 0.75, 0.875]
 
 def gen_case(rng, cid, families=None, kinds=('mh', 'pt'), allow_saveload=True,
              allow_reset=False, max_ops=8, allow_slow=True, ntemps_choices=(2, 3, 4),
-             allow_dynamic=False, max_run=6, window_choices=None):
+             allow_dynamic=False, max_run=6, window_choices=None, allow_loadinto=False):
     c = Case(cid)
     c.kind = rng.choice(kinds)
     c.nchains = rng.choice([1, 1, 2, 3])
@@ -123,6 +123,9 @@ def gen_case(rng, cid, families=None, kinds=('mh', 'pt'), allow_saveload=True,
             c.ops.append(('saveload',))
         elif r < 0.85 and allow_reset:
             c.ops.append(('reset', rng.randrange(c.nchains), rng.randrange(len(c.betas))))
+        elif r < 0.92 and allow_loadinto:
+            # save now / roll the SAME sampler object back to the last saved state later
+            c.ops.append(('save',) if not any(o[0] == 'save' for o in c.ops) or rng.random() < 0.3 else ('loadinto',))
         else:
             c.ops.append(('dump',))
     c.ops.append(('run', rng.choice([1, 2, 3])))
@@ -216,6 +219,7 @@ def run_case(c):
             lines.extend(I.render_oracle([e], sampler))
         lines.append('op start')
         expect.append('ok start')
+        kept = None
         for op in c.ops:
             stats['ops'][op[0]] = stats['ops'].get(op[0], 0) + 1
             if op[0] == 'run':
@@ -273,9 +277,32 @@ def run_case(c):
                             if isinstance(np_, I.BaseAdaptiveSupport):
                                 rec.nev[id(np_)] = rec.nev.get(id(op_), 0)
                 sampler = new
+                kept = None
                 lines.extend(I.render_oracle(rec.take(), sampler))
                 lines.append('op load')
                 expect.append('ok load')
+            elif op[0] == 'save':
+                try:
+                    kept = (pickle.loads(pickle.dumps(sampler.state)), dict(rec.nev))
+                except ValueError:
+                    lines.append('op save')
+                    expect.append('raise save')
+                    continue
+                lines.append('op save')
+                expect.append('ok save')
+            elif op[0] == 'loadinto':
+                if kept is None:
+                    continue
+                rec.take()
+                sampler.set_state(pickle.loads(pickle.dumps(kept[0])))
+                for ch in sampler.chains:
+                    for l in I.levels_of(ch):
+                        for pr in l.proposal_dist.proposals:
+                            if isinstance(pr, I.BaseAdaptiveSupport):
+                                rec.nev[id(pr)] = kept[1].get(id(pr), 0)
+                lines.extend(I.render_oracle(rec.take(), sampler))
+                lines.append('op loadinto')
+                expect.append('ok loadinto')
             elif op[0] == 'reset':
                 ch = sampler.chains[op[1]]
                 I.levels_of(ch)[op[2]].reset_proposals()
